@@ -12,7 +12,37 @@ fn strategy(tier: Tier) -> BoxedStrategy<LedgerCase> {
     let mut p = GenParams::ledger();
     p.max_rows = tier.pick(18, 36);
     p.usd_norate = false; // the binary-level sample must not need the network
-    ledger_strategy(p, 3)
+    (ledger_strategy(p, 3), crate::gen::intent_strategy(), crate::gen::intent_strategy(), any::<u8>()).prop_map(|(base, i1, i2, mode)| {
+        let mut c = base;
+        // a quarter of the inputs get a bookkeeping failure planted into two securities (several error messages to order)
+        if mode % 4 == 0 {
+            for (k, it) in [i1, i2].iter().enumerate() {
+                let secs = c.secs();
+                if secs.len() < 2 { break; }
+                let mut it = it.clone();
+                it.sec = ((((k % secs.len()) as u32) << 16) / secs.len() as u32 + 1).min(65535) as u16;
+                if let Some(rc) = super::c04::plant(&c, &it) { c = rc.ledger; }
+            }
+        }
+        // another quarter repeats a recognised column (two memo / two commission columns with different cells)
+        if mode % 4 == 1 { c.tags = vec![if mode % 8 == 1 { "dup:memo".to_string() } else { "dup:commission".to_string() }]; } else { c.tags = vec![]; }
+        c
+    }).boxed()
+}
+
+/// The input file; with a `dup:` tag a recognised column appears twice with different cells.
+fn files_of(case: &LedgerCase) -> Vec<(String, String)> {
+    let Some(tag) = case.tags.iter().find(|t| t.starts_with("dup:")) else { return case.files(); };
+    let col = &tag[4..];
+    let text = crate::gen::to_csv(&case.rows);
+    let mut out = String::new();
+    for (i, line) in text.lines().enumerate() {
+        if i == 0 { out += &format!("{line},{col}\n"); continue; }
+        let r = &case.rows[i - 1];
+        let cell = if col == "memo" { if i % 2 == 0 { format!("second memo {i}") } else { String::new() } } else if matches!(r.act, Act::Buy | Act::Sell) && i % 2 == 0 { "1.11".to_string() } else { String::new() };
+        out += &format!("{line},{cell}\n");
+    }
+    vec![("f0.csv".to_string(), out)]
 }
 
 fn first_diff(a: &str, b: &str) -> String {
@@ -47,10 +77,11 @@ fn nontrivial(case: &LedgerCase, obs: &mut Obs) {
     let ignored_secs: BTreeSet<&String> = case.rows.iter().filter(|r| !r.is_global_split() && affiliate_id(&r.af).0 != "default").map(|r| &r.sec).collect();
     if ignored_secs.len() >= 2 { obs.nt("ignored-rows-in->=2-securities"); }
     if case.rows.iter().any(|r| r.act == Act::Split) { obs.class("has-split(tie-candidate)"); }
+    for t in &case.tags { if t.starts_with("dup:") { obs.class(format!("repeated-column:{}", &t[4..])); } }
 }
 
 fn check(case: &LedgerCase, obs: &mut Obs) -> Verdict {
-    let files = case.files();
+    let files = files_of(case);
     let csv = &files[0].1;
     let opts = case.run_opts();
     let k = if std::env::var("VERIF_TIER").as_deref() == Ok("thorough") { 16 } else { 6 };
@@ -69,7 +100,12 @@ fn check(case: &LedgerCase, obs: &mut Obs) -> Verdict {
                 Ok(s) => outs.push((format!("summary csv (annual={annual})"), format!("{}\n--warnings--\n{}", s.csv, s.warnings.join("\n")))),
                 Err(SummaryErr::Panic(p)) => { let v = classify_panic(&p, csv); if let Verdict::Known(..) = v { return v; } outs.push((format!("summary csv (annual={annual})"), format!("PANIC {}", p.sig()))); }
                 Err(SummaryErr::General(e)) => outs.push((format!("summary csv (annual={annual})"), format!("ERROR {e}"))),
-                Err(SummaryErr::Sec(m)) => outs.push((format!("summary csv (annual={annual})"), format!("SEC ERRORS {:?}", m))),
+                Err(SummaryErr::Sec(m)) => {
+                    outs.push((format!("summary csv (annual={annual})"), format!("SEC ERRORS {:?}", m)));
+                    // what the console front end prints for these errors, in its own order
+                    match crate::observe::run_summary_console_errors(&files, &opts, cut, annual, today) { Ok(e) => outs.push((format!("summary mode error stream (annual={annual})"), e)), Err(e) => return Verdict::Fail(format!("summary console front end: {e}\n{csv}")) }
+                    if m.len() >= 2 { obs.nt("summary-with->=2-failing-securities"); }
+                }
                 Err(SummaryErr::BadInit(e)) => return Verdict::Fail(e),
             }
         }
@@ -153,7 +189,7 @@ fn binary_repeat(tier: Tier, seed: u64, idx: u64, of: u64, stats: &mut Stats) {
 }
 
 pub fn def() -> PropDef {
-    let mut d = PropDef::new("C09", "generated inputs rich in hash-ordered shapes (>= 3 affiliates with splits for all affiliates, several securities with registered / non-default rows, splits that tie yearly maxima, many securities) are run k times in one process (k = 6 quick, 16 thorough; every HashMap gets a fresh hash seed) and the bytes of: text output with --total-costs (default and full precision), the CSV writer's files, and the summary CSV with its warnings (simple and annual) must be identical; a sample of inputs is additionally run 4 times through the real acb main in separate processes comparing stdout and every file of --csv-output-dir. Non-trivial = input with >= 3 securities, or >= 2 affiliates under a split for all affiliates, or ignored (non-default affiliate) rows in >= 2 securities. Distinct = distinct case content.");
+    let mut d = PropDef::new("C09", "generated inputs rich in hash-ordered shapes (>= 3 affiliates with splits for all affiliates, several securities with registered / non-default rows, splits that tie yearly maxima, many securities) are run k times in one process (k = 6 quick, 16 thorough; every HashMap gets a fresh hash seed) and the bytes of: text output with --total-costs (default and full precision), the CSV writer's files, the summary CSV with its warnings (simple and annual), and the error stream of the summary front end when securities fail (a quarter of the inputs get failures planted into two securities; another quarter repeats a recognised column with different cells) must be identical; a sample of inputs is additionally run 4 times through the real acb main in separate processes comparing stdout and every file of --csv-output-dir. Non-trivial = input with >= 3 securities, or >= 2 affiliates under a split for all affiliates, or ignored (non-default affiliate) rows in >= 2 securities. Distinct = distinct case content.");
     d.assumptions = vec!["hash seeds are sampled by the process, not by VERIF_SEED: a correct tree can never fail, a broken one fails with high probability per non-trivial case", "replay repeats the case 64 times"];
     d.replay_repeats = 12;
     d.subs.push(Box::new(Sub::<LedgerCase> { name: "repeat", cases_quick: 4_000, cases_thorough: 100_000, strategy: Box::new(strategy), to_json: LedgerCase::to_json, from_json: LedgerCase::from_json, check }));
